@@ -470,10 +470,40 @@ def no_lexical_normalisation(ctx: Ctx, rid: str = "C17.R4") -> None:
     ctx.ob(rid, None, "lexical normalisers censused", None, True, f"{n} call(s) of {sorted(LEXICAL_NORMALISERS)}", nontrivial=False)
 
 
+def only_the_backend_talks_to_s3(ctx: Ctx, rid: str = "C17.R6") -> None:
+    ctx.rule(rid, "on S3 the table root is enforced by S3StorageBackend._get_s3_key: no other module holds the raw client (`<x>.s3`), "
+             "builds an S3RangeFile or imports boto3 - a reader that opens a bucket key on its own (an absolute s3:// location from "
+             "a manifest) is outside the root by construction", 0)
+    allowed = {"storage_backend", "lock_provider"}
+    n = 0
+    for m in sorted(ctx.prog.modules.values(), key=lambda x: x.name):
+        if m.short in allowed:
+            continue
+        for x in ast.walk(m.tree):
+            what = None
+            if isinstance(x, ast.Attribute) and x.attr == "s3" and isinstance(x.ctx, ast.Load):
+                what = f"raw client `{norm_text(x)}`"
+            elif isinstance(x, ast.Call) and (dotted(x.func) or "").split(".")[-1] == "S3RangeFile":
+                what = "S3RangeFile built outside the backend"
+            elif isinstance(x, (ast.Import, ast.ImportFrom)) and any((a.name or "").split(".")[0] == "boto3" for a in x.names) \
+                    or (isinstance(x, ast.ImportFrom) and (x.module or "").split(".")[0] == "boto3"):
+                what = "boto3 imported"
+            if what:
+                n += 1
+                ctx.ob(rid, None, "S3 is reached only through the storage backend", None, False,
+                       f"{what} in {m.short}: requests issued here bypass the key mapping that confines the table to its prefix",
+                       text=f"{m.short}:{what}", file=m.relpath, line=getattr(x, "lineno", 0))
+    ctx.ob(rid, None, "raw S3 access censused", None, True, f"{n} site(s) outside {sorted(allowed)}", nontrivial=False)
+
+
 def check(ctx: Ctx) -> None:
+    only_the_backend_talks_to_s3(ctx)
     r1(ctx)
     r2(ctx)
     r3(ctx)
     no_lexical_normalisation(ctx)
+    # the S3 root is the key prefix: every path is joined under it, never taken for an already-prefixed / sibling key
+    from .c20 import r9_key_roundtrip
+    r9_key_roundtrip(ctx, "C17.R5")
     from .c05 import r2 as c05_r2
     # PATHPREFIX (shared generic rule) is reported under C05.R2; C17 relies on R2's commonpath shape instead
